@@ -238,8 +238,11 @@ struct Sim {
             else fail("index-init-fails-unexplained:" + i->GetName(), "Init() of " + i->GetName() + " failed on its own database");
         }
         if (spi->m_init) {
-            const CBlockIndex* best = spi->m_best_block_index.load();
+            // relative to the *committed* best block: only appends beyond the commit are the known mechanism; a committed
+            // block that is reorganised away must be rewound by the index itself
+            const CBlockLocator sloc = spi->GetDB().ReadBestBlock();
             LOCK(cs_main);
+            const CBlockIndex* best = sloc.IsNull() ? nullptr : n.chainman().m_blockman.LookupBlockIndex(sloc.vHave.at(0));
             for (auto& [hsh, rb] : L.blocks) {
                 if (rb.height <= base_height || !txi->GetDB().Exists(txindex::BlockHashKey{hsh})) continue;
                 const CBlockIndex* bi = n.chainman().m_blockman.LookupBlockIndex(hsh);
@@ -804,14 +807,45 @@ int main(int argc, char** argv)
         completed = depth;
         fprintf(stderr, "[C21] depth %d: states=%lu transitions=%lu frontier=%zu t=%.1fs\n", depth, (unsigned long)states, (unsigned long)transitions, frontier.size(), vx::elapsed());
     }
+    // Directed families (both tiers; in the thorough tier most of these states are already known): restart scenarios that
+    // need more events than the quick depth bound, followed by every continuation of bounded length.
+    //   aft1t : index synced + committed on branch A, index objects destroyed, reorg to branch B while they are gone, re-created
+    //   af1tt : committed on A, reorg while running (rewound in memory, not committed), restart
+    //   aitt  : appended A, A disconnected without a rewind, restart
+    uint64_t directed = 0;
+    {
+        struct Fam { const char* prefix; int extra; };
+        const Fam fams[] = {{"aft1t", 2}, {"af1tt", 1}, {"aitt", 1}};
+        for (const Fam& f : fams) {
+            if (!ok || nviol > 20 || vx::deadline_reached()) break;
+            std::vector<std::pair<std::string, std::string>> res;
+            if (!run_level({f.prefix}, res)) { ok = false; break; }
+            transitions++; directed++;
+            std::vector<Node> fr;
+            if (res[0].first != "DIED" && res[0].first != "EXC") { if (seen.insert(res[0].first).second) states++; fr.push_back({f.prefix, res[0].second}); }
+            for (int d = 1; ok && d <= f.extra && !fr.empty(); d++) {
+                std::vector<std::string> jobs;
+                for (auto& nd : fr) for (char e : nd.enabled) jobs.push_back(nd.hist + e);
+                if (!run_level(jobs, res)) { ok = false; break; }
+                std::vector<Node> next;
+                for (size_t i = 0; i < jobs.size(); i++) {
+                    transitions++; directed++;
+                    if (res[i].first == "DIED" || res[i].first == "EXC") continue;
+                    if (seen.insert(res[i].first).second) { states++; next.push_back({jobs[i], res[i].second}); }
+                }
+                fr.swap(next);
+            }
+        }
+        fprintf(stderr, "[C21] directed families: %lu replays, states=%lu t=%.1fs\n", (unsigned long)directed, (unsigned long)states, vx::elapsed());
+    }
     for (auto& w : ws) if (!w.dead) { if (write(w.to, "Q\n", 2) < 0) {} close(w.to); }
     for (auto& w : ws) if (!w.dead) { int st; waitpid(w.pid, &st, 0); close(w.from); }
     if (!ok) { printf("HARNESS-ERROR worker pool failed\n"); fflush(stdout); return 2; }
     for (auto& [h, l] : ulines) printf("US%s\n", l.substr(1).c_str());
     uint64_t mh_evals = muhash_enum(big);
-    printf("STATS\tstates=%lu\ttransitions=%lu\tdepth=%d\tfixpoint=%d\texhaustive=%d\tevals=%lu\ttx_found=%lu\tspenders=%lu\tfilters=%lu\tstats=%lu\tneg_spender=%lu\tstale_tx=%lu\tbehind=%lu\tahead=%lu\tfull_checks=%lu\tevents=%zu\tworkers=%u\n",
+    printf("STATS\tstates=%lu\ttransitions=%lu\tdepth=%d\tfixpoint=%d\texhaustive=%d\tevals=%lu\ttx_found=%lu\tspenders=%lu\tfilters=%lu\tstats=%lu\tneg_spender=%lu\tstale_tx=%lu\tbehind=%lu\tahead=%lu\tfull_checks=%lu\tevents=%zu\tworkers=%u\tdirected=%lu\n",
            (unsigned long)states, (unsigned long)transitions, completed, frontier.empty() ? 1 : 0, exhaustive ? 1 : 0, (unsigned long)(evals + mh_evals), (unsigned long)agg[0], (unsigned long)agg[1], (unsigned long)agg[2], (unsigned long)agg[3],
-           (unsigned long)agg[4], (unsigned long)agg[5], (unsigned long)agg[6], (unsigned long)agg[7], (unsigned long)full_checks, strlen(EVENTS), W);
+           (unsigned long)agg[4], (unsigned long)agg[5], (unsigned long)agg[6], (unsigned long)agg[7], (unsigned long)full_checks, strlen(EVENTS), W, (unsigned long)directed);
     printf("END\n");
     fflush(stdout);
     return 0;
